@@ -1,5 +1,7 @@
 import SJ.Proofs.Kernels
 import SJ.Proofs.Tables
+import SJ.Proofs.Block
+import SJ.Proofs.BlockScan
 /-
 C06 — AVX2 and AVX-512 kernels are observationally identical.
 -/
@@ -46,5 +48,27 @@ theorem C06_classify_spec (b : UInt8) :
   ⟨Tables.classify_struct b, Tables.classify_ws b, Tables.classify_ctrl b, Tables.classify_quote b,
    Tables.classify_backslash b, Tables.classify_newline b⟩
 
+
+open SJ.Block in
+/-- **Block model.** For every 64-byte block (short blocks padded with spaces), every carry and both families:
+    the block function assembled from the translated assembly fragments produces the structural mask of the
+    per-byte scanner, and the carries correspond. -/
+theorem C06_block_model (avx512 nd : Bool) (blk : Bytes) (c : Carry) (s : S1State) (h : CarryRel c s) :
+    (blockStep avx512 nd blk c).1 = (scanBlock nd blk s).1 ∧ CarryRel (blockStep avx512 nd blk c).2 (scanBlock nd blk s).2 := by
+  cases avx512
+  · exact block_eq_bytes nd blk c s h
+  · exact block_eq_bytes_avx512 nd blk c s h
+
+open SJ.Block in
+/-- **Message model.** Iterating the block function over a whole message gives the indices, the error flag and the
+    in-quote flag of the scalar scanner — for either family, so both families agree on every input. -/
+theorem C06_message_model (a nd : Bool) (msg : Bytes) :
+    (blocksScan a nd msg).1 = (s1Scan nd msg).2 ∧
+    (s1Scan nd msg).1.err = decide ((blocksScan a nd msg).2.errMask ≠ 0#64) ∧
+    (blocksScan a nd msg).2.prevInQuote = encAll (s1Scan nd msg).1.inQuote := blocksScan_eq_s1Scan a nd msg
+
+/-- The shift-and-xor ladder standing for `VPCLMULQDQ` by all-ones is the prefix-xor: bit i = x₀ ⊕ … ⊕ xᵢ. -/
+theorem C06_prefix_xor (x : BitVec 64) (i : Nat) (hi : i < 64) : (prefixXor x).getLsbD i = SJ.Block.win x 64 i :=
+  SJ.Block.getLsbD_prefixXor x i hi
 
 end SJ.Properties.C06
